@@ -153,6 +153,12 @@ def main():
                 section["obligations"].append({"name": "%s/%s" % (name, cl), "status": C.UNREACHABLE, "backend": "none", "detail": "function %s not found in %s"
                                                % (spec["qual"], spec["module"]), "props": spec["props"], "witness_families": spec.get("families", [])})
             continue
+        rp = [x.arg for x in fdef.args.args]
+        if rp != spec["params"] and len(rp) == len(spec["params"]):
+            from .run import rename_params
+            fr = rename_params(fdef, rp, spec["params"])      # clauses name parameters: renamed parameters are read under the contract's names
+            if fr is not None:
+                fdef = fr
         section["functions"].append({"qualname": "%s:%s" % (spec["module"], spec["qual"]), "file": path, "sha256": C.sha256_file(path),
                                      "lines": [fdef.lineno, fdef.end_lineno], "dropped": ["docstrings", "annotations", "comments"], "contract_mode": "frame",
                                      "props": spec["props"], "clauses": {k: spec.get(k) for k in ("modifies", "outputs", "independent_of", "independent_of_mutable", "deterministic", "order_free")}})
